@@ -145,22 +145,31 @@ def main():
                         o["outcome"] = "method"
                         o["same_object_as"] = methods[ident][1]
             elif kind == "eval":
-                kw = {}
-                for name, t in rq["inputs"].items():
-                    kw[name] = Tensor.from_aos([tuple(e[0]) for e in t["entries"]], [e[1] for e in t["entries"]],
-                                               dimensions=tuple(t["dims"]), format=t["fmt"])
                 fn = evaluate_cffi if rq["backend"] == "cffi" else evaluate_tensora
                 try:
+                    # building the inputs is part of the request: it must not depend on what the
+                    # process did before either
+                    kw = {}
+                    for name, t in rq["inputs"].items():
+                        kw[name] = Tensor.from_aos([tuple(e[0]) for e in t["entries"]],
+                                                   [e[1] for e in t["entries"]],
+                                                   dimensions=tuple(t["dims"]), format=t["fmt"])
                     r = fn(rq["assignment"], rq["out_format"], **kw)
                 except Exception as e:
                     o["outcome"] = "refused"
                     o["class"] = "raised:" + type(e).__name__
+                    o["message"] = str(e)[:200]
                 else:
                     sys.path.insert(0, os.path.dirname(os.path.dirname(os.path.abspath(__file__))))
                     from tsim.decode import raw_result
 
                     o["outcome"] = "value"
                     o["digest"] = _digest(repr(raw_result(r)))
+            elif kind == "gc":
+                import gc
+
+                gc.collect()
+                o["outcome"] = "done"
             elif kind == "cache_clear":
                 _porcelain.cachable_tensor_method.cache_clear()
                 methods.clear()
